@@ -3,6 +3,8 @@
 // Driver for C06: the real listusers query (validation + NewListUsersQuery(...).ListUsers) on the
 // memory backend for (object, relation) x user filter of generated scenarios, plus the real Check
 // for every returned entry and for every concrete user / userset of the filter shape in the data.
+// In a quarter of the scenarios up to three (write-valid) tuples are taken out of the store and
+// sent as contextual tuples of every request instead (the models see stored + contextual).
 //
 // Record: 1 model conds tuples atoms requests checks
 //
